@@ -157,7 +157,7 @@ def _k(t):
 
 class Desc:
     """decomposition of a loop iterator"""
-    __slots__ = ("colls", "range", "take", "enum", "other", "it", "rev", "maps")
+    __slots__ = ("colls", "range", "take", "enum", "other", "it", "rev", "maps", "_par")
 
     def __init__(self, it):
         self.colls = []
@@ -168,7 +168,11 @@ class Desc:
         self.other = False
         self.rev = False   # the positions are visited from hi-1 down to lo (same variable, same domain)
         self.it = it
+        self._par = []     # visiting direction of every streamed component (a `rev` inside ONE side of a zip reverses only that side)
         self._go(it)
+        if len(set(self._par)) > 1:
+            self.other = True   # zip(a, b.rev()): position p of a is paired with position len-1-p of b — not one variable
+        self.rev = bool(self._par) and self._par[0]
         if self.range is not None and self.take is not None:
             # (a..b).take(n) with constant bounds is the range a..min(b, a + n); anything symbolic is left alone
             lo, hi, tk = _k(self.range[0]), _k(self.range[1]), _k(self.take)
@@ -183,31 +187,30 @@ class Desc:
         if self.range is None and not self.colls:
             self.other = True
 
-    def _go(self, t):
+    def _go(self, t, rev=False):
         tag = t[0] if isinstance(t, tuple) and t else None
         if tag == "zip":
-            self._go(t[1])
-            self._go(t[2])
+            self._go(t[1], rev)
+            self._go(t[2], rev)
         elif tag == "enumerate":
             self.enum = True
-            self._go(t[1])
+            self._go(t[1], rev)
         elif tag == "take":
             if self.take is not None and self.take != t[2]:
                 self.other = True
             self.take = t[2]
-            self._go(t[1])
+            self._go(t[1], rev)
         elif tag == "map":
             self.maps.append(t)
-            self._go(t[1])
+            self._go(t[1], rev)
         elif tag == "gen" and len(t) == 2:
-            self._go(t[1])
+            self._go(t[1], rev)
         elif tag == "rng" and len(t) == 3 and circ.range_expr(t) is None:
-            self._go(t[2])   # a site-stamped `for` loop over a collection / adaptor chain
+            self._go(t[2], rev)   # a site-stamped `for` loop over a collection / adaptor chain
         elif tag == "rev":
             if self.take is not None or self.enum:
                 self.other = True   # rev after take/enumerate changes which positions are meant
-            self.rev = not self.rev
-            self._go(t[1])
+            self._go(t[1], not rev)
         elif tag in ("skip", "chunks", "chain", "step_by", "windows", "elem", "index", "lv"):
             self.other = True
         elif circ.range_expr(t) is not None:
@@ -215,10 +218,12 @@ class Desc:
             if self.range is not None and (_k(self.range[0]), _k(self.range[1])) != (_k(r[0]), _k(r[1])):
                 self.other = True   # a zip of two different ranges
             self.range = r
+            self._par.append(rev)
         elif tag is None:
             self.other = True
         else:
             self.colls.append(t)
+            self._par.append(rev)
 
     def domain(self):
         """(lo, hi) or None"""
